@@ -107,6 +107,10 @@ FIXED = [
     (P(["q0"], [((3,), 1), ((0,), -1)]), P(["q0"], [((1,), [1, 0]), ((0,), [-1, 0])])),                  # zero divisor element
     (P(["q0"], [((2,), 1.0)], "float64"), {"num": 0}),
     ({"array": [[1, 2], [3, 4]], "dtype": "int64"}, P(["q1"], [((1,), [1, 0]), ((0,), [1, 2])])),
+    # elements with different leading terms and coefficients so large that a product computed for an element it is NOT used
+    # for overflows to inf: the discarded value must not reach the running remainder (inf * 0 = nan never compares equal to 0)
+    (P(["q0"], [((2,), [2.0 ** 520, 1.0])], "float64"), P(["q0"], [((1,), [2.0 ** 520, 0.0]), ((2,), [0.0, 1.0])], "float64")),
+    (P(["q0", "q1"], [((2, 0), [1e200, 1.0]), ((0, 1), [0.0, 1.0])], "float64"), P(["q0", "q1"], [((1, 0), [1e200, 0.0]), ((0, 1), [0.0, 2.0])], "float64")),
 ]
 
 
@@ -138,8 +142,8 @@ def gen_identity(tier, rng):
 
 @check("C05", "divmod.terminates_identity", gen_identity, functions=("numpoly.poly_divmod", "numpoly.poly_function.divide.divmod.get_division_candidate"),
        note="bounded: dividend/divisor with <=3 terms, 1-3 indeterminates, exponents<=3, int64/float64 coefficients incl. zero "
-            "elements, 10 broadcasting shape pairs over (),(1,),(2,),(2,1),(1,2),(2,2), number/array operands, plus 8 fixed pairs "
-            "(q0*q1**2 / (q1**2-2*q0), ...); termination = returns within the per-input limit, loop state never repeats, "
+            "elements, 10 broadcasting shape pairs over (),(1,),(2,),(2,1),(1,2),(2,2), number/array operands, plus 10 fixed pairs "
+            "(q0*q1**2 / (q1**2-2*q0), ..., two with coefficients near the float64 overflow threshold); termination = returns within the per-input limit, loop state never repeats, "
             f"<= {MAX_ROUNDS} candidate rounds; identity dividend == q*divisor + r exact or to relative 1e-9 per coefficient")
 def terminates_identity(inp):
     install_poison()
